@@ -187,15 +187,22 @@ type rec struct {
 	Qtype uint16
 	ID    uint16
 	Mode  mode
+	Extra string // "stray" / "dup": the one-shot extra message was sent with this reply
 }
 
 type stub struct {
 	role  string // "main" or "fb"
 	idx   int
 	nonce string
-	ip    net.IP
-	port  int
-	addr  netip.AddrPort
+	// armed: send ONE extra message with the next valid reply: "stray" = over
+	// TCP a message with a foreign ID before the real reply, "dup" = over UDP
+	// the reply datagram twice.  Afterwards the stub behaves as scripted.
+	armed string
+	// tcpOff: no TCP listener (a UDP-only server)
+	tcpOff bool
+	ip     net.IP
+	port   int
+	addr   netip.AddrPort
 
 	mu    sync.Mutex
 	mode  mode
@@ -269,6 +276,9 @@ func (s *stub) listen(tries int) error {
 		if err != nil {
 			continue
 		}
+		if s.tcpIsOff() {
+			break
+		}
 		ln, err = net.Listen("tcp4", a)
 		if err != nil {
 			_ = pc.Close()
@@ -283,8 +293,52 @@ func (s *stub) listen(tries int) error {
 	s.pc, s.ln, s.open = pc, ln, true
 	s.conns = map[net.Conn]struct{}{}
 	s.mu.Unlock()
-	s.wg.Add(2)
+	s.wg.Add(1)
 	go s.serveUDP(pc)
+	if ln != nil {
+		s.wg.Add(1)
+		go s.serveTCP(ln)
+	}
+	return nil
+}
+
+func (s *stub) tcpIsOff() bool { s.mu.Lock(); defer s.mu.Unlock(); return s.tcpOff }
+
+// setTCPOff makes the stub a UDP-only server (TCP port closed) or restores
+// the TCP listener.  Called only while no call into the handler is in progress.
+func (s *stub) setTCPOff(off bool) error {
+	s.mu.Lock()
+	if s.tcpOff == off {
+		s.mu.Unlock()
+		return nil
+	}
+	s.tcpOff = off
+	open, ln := s.open, s.ln
+	if off && ln != nil {
+		_ = ln.Close()
+		for c := range s.conns {
+			_ = c.Close()
+		}
+		s.ln = nil
+	}
+	s.mu.Unlock()
+	if off || !open {
+		return nil
+	}
+	var err error
+	for t := 0; t < 40; t++ {
+		if ln, err = net.Listen("tcp4", s.addr.String()); err == nil {
+			break
+		}
+		time.Sleep(10 * time.Millisecond)
+	}
+	if err != nil {
+		return err
+	}
+	s.mu.Lock()
+	s.ln = ln
+	s.mu.Unlock()
+	s.wg.Add(1)
 	go s.serveTCP(ln)
 	return nil
 }
@@ -293,7 +347,9 @@ func (s *stub) shut() {
 	s.mu.Lock()
 	if s.open {
 		_ = s.pc.Close()
-		_ = s.ln.Close()
+		if s.ln != nil {
+			_ = s.ln.Close()
+		}
 		s.tornDown = len(s.conns) > 0
 		for c := range s.conns {
 			_ = c.Close()
@@ -325,7 +381,11 @@ func (s *stub) setMode(m mode) error {
 	return nil
 }
 
-func (s *stub) handle(raw []byte, netw string) []byte {
+func (s *stub) arm(kind string) { s.mu.Lock(); s.armed = kind; s.mu.Unlock() }
+
+func (s *stub) isArmed() bool { s.mu.Lock(); defer s.mu.Unlock(); return s.armed != "" }
+
+func (s *stub) handle(raw []byte, netw string) [][]byte {
 	now := time.Now()
 	req := new(dns.Msg)
 	if err := req.Unpack(raw); err != nil || len(req.Question) == 0 {
@@ -336,9 +396,26 @@ func (s *stub) handle(raw []byte, netw string) []byte {
 	}
 	s.mu.Lock()
 	m := s.mode
-	s.log = append(s.log, rec{T: now, Net: netw, Name: req.Question[0].Name, Qtype: req.Question[0].Qtype, ID: req.Id, Mode: m})
+	extra := ""
+	valid := m == mUp || m == mUpCase || (m == mTrunc && netw == "tcp")
+	if valid && ((s.armed == "stray" && netw == "tcp") || (s.armed == "dup" && netw == "udp")) {
+		extra, s.armed = s.armed, ""
+	}
+	s.log = append(s.log, rec{T: now, Net: netw, Name: req.Question[0].Name, Qtype: req.Question[0].Qtype, ID: req.Id, Mode: m, Extra: extra})
 	s.mu.Unlock()
-	return buildReply(m, req, netw, s.ip, s.nonce)
+	out := buildReply(m, req, netw, s.ip, s.nonce)
+	if out == nil {
+		return nil
+	}
+	switch extra {
+	case "stray":
+		stray := append([]byte(nil), out...)
+		binary.BigEndian.PutUint16(stray, req.Id^0x3c3c)
+		return [][]byte{stray, out}
+	case "dup":
+		return [][]byte{out, out}
+	}
+	return [][]byte{out}
 }
 
 func (s *stub) serveUDP(pc net.PacketConn) {
@@ -349,7 +426,7 @@ func (s *stub) serveUDP(pc net.PacketConn) {
 		if err != nil {
 			return
 		}
-		if out := s.handle(append([]byte(nil), buf[:n]...), "udp"); out != nil {
+		for _, out := range s.handle(append([]byte(nil), buf[:n]...), "udp") {
 			_, _ = pc.WriteTo(out, from)
 		}
 	}
@@ -392,13 +469,14 @@ func (s *stub) serveConn(c net.Conn) {
 		if _, err := io.ReadFull(c, raw); err != nil {
 			return
 		}
-		out := s.handle(raw, "tcp")
-		if out == nil {
+		var msg []byte
+		for _, out := range s.handle(raw, "tcp") {
+			msg = binary.BigEndian.AppendUint16(msg, uint16(len(out)))
+			msg = append(msg, out...)
+		}
+		if msg == nil {
 			continue
 		}
-		msg := make([]byte, 2+len(out))
-		binary.BigEndian.PutUint16(msg, uint16(len(out)))
-		copy(msg[2:], out)
 		if _, err := c.Write(msg); err != nil {
 			return
 		}
@@ -488,14 +566,22 @@ var _ dnsserver.ResponseWriter = (*recRW)(nil)
 // case specification
 
 type stepSpec struct {
-	Op    string   `json:"op"`             // "query", "refresh", "init" (health check inside NewHandler)
-	Wait  string   `json:"wait,omitempty"` // before the call: "beyond" = sleep until every failed probe is clearly older than the back-off, "part" = until about half of it
-	Modes []string `json:"modes"`          // mode of every stub during the step: mains, then fallbacks
-	Name  string   `json:"name,omitempty"`
-	Qtype uint16   `json:"qtype,omitempty"`
-	ID    uint16   `json:"id,omitempty"`
-	Ctx   string   `json:"ctx,omitempty"`   // "refresh": "short" = context deadline 60 ms (shorter than the upstream timeout), "cancel" = cancelled after 50 ms
-	Count int      `json:"count,omitempty"` // "burst": number of queries b<k>.<name>; every active main must be chosen at least once
+	Op     string   `json:"op"`             // "query", "refresh", "init" (health check inside NewHandler)
+	Wait   string   `json:"wait,omitempty"` // before the call: "beyond" = sleep until every failed probe is clearly older than the back-off, "part" = until about half of it
+	Modes  []string `json:"modes"`          // mode of every stub during the step: mains, then fallbacks
+	Name   string   `json:"name,omitempty"`
+	Qtype  uint16   `json:"qtype,omitempty"`
+	ID     uint16   `json:"id,omitempty"`
+	Ctx    string   `json:"ctx,omitempty"` // "refresh": "short" = context deadline 60 ms (shorter than the upstream timeout), "cancel" = cancelled after 50 ms
+	Count  int      `json:"count,omitempty"`
+	Arm    *armSpec `json:"arm,omitempty"`     // before the step: arm a one-shot extra message on a main
+	TCPOff []int    `json:"tcp_off,omitempty"` // mains whose stub has no TCP listener during the step (UDP-only servers)
+	Settle bool     `json:"settle,omitempty"`  // after the step: the extra message must have been sent and consumed, else the case is dropped // "burst": number of queries b<k>.<name>; every active main must be chosen at least once
+}
+
+type armSpec struct {
+	Main int    `json:"main"`
+	Kind string `json:"kind"` // "stray" (TCP) or "dup" (UDP)
 }
 
 type caseSpec struct {
@@ -572,8 +658,9 @@ func genCase(r *vkit.Run, stream string, idx, nSteps int) caseSpec {
 	}
 	qn := 0
 	nextCtx := ""
+	var tcpOff []int
 	add := func(op string, wait string) {
-		st := stepSpec{Op: op}
+		st := stepSpec{Op: op, TCPOff: tcpOff}
 		if op == "refresh" {
 			st.Ctx, nextCtx = nextCtx, ""
 		}
@@ -602,7 +689,8 @@ func genCase(r *vkit.Run, stream string, idx, nSteps int) caseSpec {
 			}
 		}
 	}
-	if cs.F > 0 && rng.IntN(4) == 0 {
+	tpl := (idx / 36) % 4 // 0: extra-message template + random walk, 1,2: back-off / context templates, 3: pooled-connection template
+	if cs.F > 0 && tpl != 0 && rng.IntN(4) == 0 {
 		add("init", "")
 	}
 	if cs.F == 0 && rng.IntN(2) == 0 {
@@ -630,7 +718,40 @@ func genCase(r *vkit.Run, stream string, idx, nSteps int) caseSpec {
 	} else if cs.F == 0 && rng.IntN(2) == 0 {
 		add("init", "")
 	}
-	tpl := (idx / 36) % 4 // 0: random walk only, 1,2: back-off template, 3: pooled-connection template
+	if tpl == 0 {
+		// one extra message once on a pooled connection of a main (TCP: a
+		// stray foreign-ID message before the real reply; UDP: the reply
+		// twice), then the main behaves perfectly: only the query that reads
+		// the extra message may fail, every later one is answered by the main.
+		for i := range cur {
+			cur[i] = []mode{mUp, mUp, mUpCase}[rng.IntN(3)]
+		}
+		m := rng.IntN(cs.M)
+		// prefer a main whose network makes the effect client-visible
+		for i := 0; i < cs.M; i++ {
+			if cs.Nets[(m+i)%cs.M] != "any" {
+				m = (m + i) % cs.M
+				break
+			}
+		}
+		kind := "stray"
+		switch cs.Nets[m] {
+		case "udp":
+			// a UDP-only server: the handler's retry over TCP after the
+			// mismatching datagram is refused
+			kind = "dup"
+			tcpOff = []int{m}
+		case "any":
+			cur[m] = mTrunc // the TCP connection is used after every truncated UDP reply
+		}
+		add("query", "")
+		add("burst", "")
+		cs.Steps[len(cs.Steps)-1].Arm = &armSpec{Main: m, Kind: kind}
+		add("burst", "")
+		cs.Steps[len(cs.Steps)-1].Settle = true
+		add("query", "")
+		tcpOff = nil
+	}
 	if tpl == 3 {
 		// every upstream answers (the handler pools its connections), then
 		// upstreams die with their accepted connections torn down and the
@@ -834,6 +955,9 @@ type scenario struct {
 	Fb   int     `json:"fb"`   // -1: no fallback tried
 	Out  outcome `json:"outcome"`
 	Tag  string  `json:"tag"`
+	// NoRecordOK: the main's stub need not have logged the request yet (the
+	// handler stopped waiting as soon as it read the extra message)
+	NoRecordOK bool `json:"-"`
 }
 
 type queryObs struct {
@@ -948,7 +1072,7 @@ func (s scenario) matches(o queryObs, mm, fm []mode) bool {
 				return false
 			}
 		}
-		if !has(o.StubMains, s.Main) && mm[s.Main] != mClosed {
+		if !has(o.StubMains, s.Main) && mm[s.Main] != mClosed && !(s.NoRecordOK && has(o.ExtraMains, s.Main)) {
 			return false
 		}
 	}
@@ -974,9 +1098,22 @@ func (s scenario) matches(o queryObs, mm, fm []mode) bool {
 
 // judge compares one observed query with the model.  cand holds the active sets
 // the query may legitimately have seen (one for sequential steps).
-func judge(cand [][]bool, mm, fm []mode, nets []string, o queryObs) (tag, key, what string, exp []scenario, hit scenario) {
+func judge(cand [][]bool, mm, fm []mode, nets []string, o queryObs, extraMain int, extraFb ...bool) (tag, key, what string, exp []scenario, hit scenario) {
 	for _, a := range cand {
 		exp = append(exp, scenarios(a, mm, fm, nets)...)
+	}
+	if extraMain >= 0 {
+		// this query read the one-shot extra message from that main: its
+		// reply is not a matching one, which is a non-network failure
+		exp = append(exp, scenario{Main: extraMain, Fb: -1, Out: outcome{Kind: "error"}, Tag: "main-extra-message-consumed", NoRecordOK: true})
+		if len(extraFb) > 0 && extraFb[0] {
+			// ... and that main is a UDP-only server: the retry over TCP is
+			// refused, a network error, so a fallback is tried
+			for f := range fm {
+				fo, t := fbOutcome(fm[f], f, nets[len(mm)+f])
+				exp = append(exp, scenario{Main: extraMain, Fb: f, Out: fo, Tag: "main-extra-message-consumed->" + t, NoRecordOK: true})
+			}
+		}
 	}
 	for _, s := range exp {
 		if s.matches(o, mm, fm) {
@@ -1352,9 +1489,74 @@ func runCase(r *vkit.Run, cs caseSpec) {
 	state := make([]mainState, cs.M)
 	everFailed := make([]bool, cs.M)
 	downAtRefresh := make([]bool, cs.M) // F == 0: main was failing during some Refresh
-	ctxFailed := make([]bool, cs.M)     // the last failed probe ended with its round's context
-	initDown := false                   // F == 0: some main was failing during the initial health check
 	tags := map[string]bool{}
+	pendingDup := make([]bool, cs.M) // a duplicated UDP reply of this main waits in the handler's pooled socket
+	extraDone := make([]bool, cs.M)  // the one-shot extra message of this main has been read by a query
+	afterExtra := make([]int, cs.M)  // answers of this main after that
+	// extraOf returns the main whose one-shot extra message the query with
+	// these records has read (-1: none) and keeps the book.
+	lateName := "" // the query that read a duplicated datagram: its own datagram may be logged by the stub after the call has returned
+	dropLate := func(rs []rec) []rec {
+		if lateName == "" {
+			return rs
+		}
+		out := rs[:0]
+		for _, rc := range rs {
+			if !(rc.Net == "udp" && strings.EqualFold(rc.Name, lateName)) {
+				out = append(out, rc)
+			}
+		}
+		return out
+	}
+	extraOf := func(recs [][]rec, o queryObs, name string) int {
+		xm := -1
+		for i := 0; i < cs.M; i++ {
+			udp := false
+			for _, rc := range recs[i] {
+				udp = udp || rc.Net == "udp"
+			}
+			if pendingDup[i] && (udp || has(o.ExtraMains, i)) {
+				if !udp {
+					lateName = name
+				}
+				xm, pendingDup[i], extraDone[i] = i, false, true
+				r.Bucket("extra_message:duplicate_udp_reply_read_by_next_query", 1)
+			}
+			for _, rc := range recs[i] {
+				switch rc.Extra {
+				case "stray":
+					xm, extraDone[i] = i, true
+					r.Bucket("extra_message:stray_tcp_message_read", 1)
+				case "dup":
+					pendingDup[i] = true
+				}
+			}
+		}
+		return xm
+	}
+	// afterExtraKey makes the key of a violation precise when the query went
+	// to a main whose extra message had been consumed by an EARLIER query.
+	afterExtraKey := func(key string, o queryObs, xm int) string {
+		for _, m := range union(o.StubMains, o.ExtraMains) {
+			if extraDone[m] && m != xm && (strings.HasPrefix(key, "query:result:want-answer-main") || key == "query:fallback-without-network-error:answer") {
+				return key + ":after-extra-message-on-pooled-connection"
+			}
+		}
+		return key
+	}
+	noteAfterExtra := func(o queryObs, xm int) {
+		if m := o.Out.Idx; o.Out.Role == "main" && o.Out.Kind == "answer" && m < cs.M && extraDone[m] && m != xm {
+			afterExtra[m]++
+			r.Bucket("extra_message:later_queries_answered_by_that_main", 1)
+			if afterExtra[m] == 3 {
+				r.Bucket("extra_message:cases_with_3_later_answers:"+cs.Nets[m], 1)
+				r.Bucket("extra_message:cases_with_3_later_answers", 1)
+				tags["extra-message-then-main-answers"] = true
+			}
+		}
+	}
+	ctxFailed := make([]bool, cs.M) // the last failed probe ended with its round's context
+	initDown := false               // F == 0: some main was failing during the initial health check
 	logPos := make([]int, cs.M+cs.F)
 	dead := make([]bool, cs.M+cs.F) // the handler holds a pooled TCP connection that the stub tore down
 	tag := fmt.Sprintf("%s%d", cs.Stream, cs.Idx)
@@ -1399,6 +1601,12 @@ func runCase(r *vkit.Run, cs caseSpec) {
 			r.Bucket("abandoned_rebind_failed", 1)
 			return
 		}
+		for i, s := range fx.mains {
+			if err = s.setTCPOff(has(st.TCPOff, i)); err != nil {
+				r.Bucket("abandoned_rebind_failed", 1)
+				return
+			}
+		}
 		if fx.h == nil && st.Op != "init" {
 			fx.newHandler(tag, backoff, 0)
 		}
@@ -1426,6 +1634,10 @@ func runCase(r *vkit.Run, cs caseSpec) {
 				}
 			}
 		}
+		if st.Arm != nil {
+			fx.mains[st.Arm.Main].arm(st.Arm.Kind)
+			r.Bucket("extra_message:armed:"+st.Arm.Kind, 1)
+		}
 		if st.Op == "burst" {
 			seen := make([]bool, cs.M)
 			b0 := time.Now()
@@ -1437,6 +1649,7 @@ func runCase(r *vkit.Run, cs caseSpec) {
 				for i, s := range fx.all() {
 					brecs[i] = s.logFrom(logPos[i])
 					logPos[i] += len(brecs[i])
+					brecs[i] = dropLate(brecs[i])
 					for _, rc := range brecs[i] {
 						if !strings.EqualFold(rc.Name, name) {
 							r.Bucket("ambiguous_late_record", 1)
@@ -1470,8 +1683,10 @@ func runCase(r *vkit.Run, cs caseSpec) {
 					fail("query:error-and-response", "ServeDNS wrote a response and returned an error", si, nil)
 					return
 				}
-				tg, key, what, exp, _ := judge([][]bool{active}, mm, fm, cs.Nets, o)
+				xm := extraOf(brecs, o, name)
+				tg, key, what, exp, _ := judge([][]bool{active}, mm, fm, cs.Nets, o, xm, xm >= 0 && has(st.TCPOff, xm))
 				if key != "" {
+					key = afterExtraKey(key, o, xm)
 					tr.Exp = exp
 					trace = append(trace, tr)
 					fail(key, what, si, map[string]any{"model_active": active, "main_modes": st.Modes[:cs.M], "fallback_modes": st.Modes[cs.M:], "burst_query": k})
@@ -1480,6 +1695,7 @@ func runCase(r *vkit.Run, cs caseSpec) {
 				tags[tg] = true
 				r.Bucket("queries", 1)
 				countQuery(r, tg)
+				noteAfterExtra(o, xm)
 				for _, m := range union(o.StubMains, o.ExtraMains) {
 					seen[m] = true
 					for i := range dead {
@@ -1501,6 +1717,16 @@ func runCase(r *vkit.Run, cs caseSpec) {
 					fail(k, fmt.Sprintf("a main upstream that is in rotation according to the statement received none of %d consecutive queries (chance below 1e-12 for a uniformly random pick)", st.Count),
 						si, map[string]any{"main": i, "chosen": seen, "down_at_an_earlier_health_check": downAtRefresh})
 					return
+				}
+			}
+			if st.Settle {
+				for i, s := range fx.mains {
+					if s.isArmed() || pendingDup[i] {
+						// the extra message was never sent or never read: nothing to judge
+						r.Bucket("extra_message:not_settled", 1)
+						tags["ambiguous"] = true
+						return
+					}
 				}
 			}
 			r.Bucket("bursts_every_active_main_chosen", 1)
@@ -1548,6 +1774,7 @@ func runCase(r *vkit.Run, cs caseSpec) {
 		for i, s := range fx.all() {
 			recs[i] = s.logFrom(logPos[i])
 			logPos[i] += len(recs[i])
+			recs[i] = dropLate(recs[i])
 		}
 		tr := stepTrace{Step: si, Op: st.Op, StartMs: ms(c0), EndMs: ms(c1)}
 
@@ -1621,11 +1848,13 @@ func runCase(r *vkit.Run, cs caseSpec) {
 			if neither {
 				r.Bucket("queries_neither_error_nor_response", 1)
 			}
-			tg, key, what, exp, hit := judge([][]bool{active}, mm, fm, cs.Nets, o)
+			xm := extraOf(recs, o, st.Name)
+			tg, key, what, exp, hit := judge([][]bool{active}, mm, fm, cs.Nets, o, xm, xm >= 0 && has(st.TCPOff, xm))
 			tr.Exp = exp
 			tr.Active = append([]bool(nil), active...)
 			trace = append(trace, tr)
 			if key != "" {
+				key = afterExtraKey(key, o, xm)
 				dp := []int{}
 				for i, d := range dead {
 					if d {
@@ -1688,6 +1917,7 @@ func runCase(r *vkit.Run, cs caseSpec) {
 			}
 			r.Bucket("queries", 1)
 			countQuery(r, tg)
+			noteAfterExtra(o, xm)
 			if o.Out.Role == "main" && o.Out.Kind == "answer" && everFailed[o.Out.Idx] {
 				r.Bucket("queries_answered_by_recovered_main", 1)
 				tags["served-by-recovered-main"] = true
@@ -2113,7 +2343,7 @@ func runConcurrent(r *vkit.Run, idx int) {
 				r.Violation("query:error-and-response", "ServeDNS wrote a response and returned an error", w)
 				return false
 			}
-			tg, key, what, exp, hit := judge(cand, mm, fm, nets, o)
+			tg, key, what, exp, hit := judge(cand, mm, fm, nets, o, -1)
 			if key != "" {
 				w["legitimate"] = exp
 				r.Violation(key, what+" (queries concurrent with Refresh)", w)
@@ -2152,7 +2382,7 @@ func TestCheck(t *testing.T) {
 	r.Rule("sequential: seeded schedules of queries / Refresh rounds (immediately, after about half the back-off, or clearly beyond it) against the real forward.Handler with M in {1,2,3} mains and " +
 		"F in {0,1,2} fallbacks (all nine combinations), back-off in {0, 450ms, 750ms, 1h}, upstream networks all-any / all-tcp / mixed any,tcp,udp; every stub has a scripted behaviour per step out of " +
 		"up, upcase (valid reply, question re-cased), trunc (TC over UDP, answer over TCP), servfail, wrongid, wrongname, wrongtype, noquestion, short (<17 bytes), " +
-		"silent (timeout), closed (port closed). Half of the cases start with a fail/detect/recover-inside-backoff/recover-beyond-backoff template, a quarter with a template that lets every upstream answer (connections pooled), then closes upstreams together with their accepted connections and queries before any Refresh; the rest is a random walk; half of the F=0 cases begin with mains failing during the initial health check (HealthcheckInitDuration>0), then recovering, then bursts of 24*M queries in which every main must be chosen at least once; garbage also as wrongname+tc / wrongtype+tc / noquestion+tc (right ID, TC set, on both transports); some Refresh rounds against silent mains get a 60 ms context deadline or are cancelled after 50 ms, followed inside the back-off by recovery of the main, a Refresh and queries. " +
+		"silent (timeout), closed (port closed). Half of the cases start with a fail/detect/recover-inside-backoff/recover-beyond-backoff template, a quarter with a template that lets every upstream answer (connections pooled), then closes upstreams together with their accepted connections and queries before any Refresh; the rest is a random walk; half of the F=0 cases begin with mains failing during the initial health check (HealthcheckInitDuration>0), then recovering, then bursts of 24*M queries in which every main must be chosen at least once; garbage also as wrongname+tc / wrongtype+tc / noquestion+tc (right ID, TC set, on both transports); a quarter of the cases start with ONE extra message on a main's pooled connection (TCP: a stray foreign-ID message before the real reply; UDP: the reply datagram twice) followed by two bursts of 24*M queries with different IDs, where only the query that reads the extra message may fail; some Refresh rounds against silent mains get a 60 ms context deadline or are cancelled after 50 ms, followed inside the back-off by recovery of the main, a Refresh and queries. " +
 		"distinct = (M, F, back-off class, set of event kinds the oracle matched in the case); non-trivial = the set holds something else than plain main answers " +
 		"and all-ok refreshes (a fail-over, a rejected reply, a failed probe, a back-off skip, a recovery ...). " +
 		"concurrent: queries from 6 goroutines concurrent with Refresh under the race detector, judged against the union of the active sets before/after")
@@ -2211,6 +2441,9 @@ func TestCheck(t *testing.T) {
 		"garbage_rejected:noquestion+tc":                    8,
 		"probe_failures_in_round_with_short_context":        6,
 		"probe_failures_in_round_with_cancel_context":       6,
+		"extra_message:cases_with_3_later_answers":          30,
+		"extra_message:cases_with_3_later_answers:tcp":      8,
+		"extra_message:cases_with_3_later_answers:udp":      3,
 		"backoff_held_after_context_ended_probe":            8,
 		"queries_failover_after_network_error":              70,
 		"queries_fallback_no_active_main":                   120,
